@@ -42,21 +42,33 @@ Definition aggregate_batches (log : list agg) (bs : list (list entry)) : list ag
   fold_left aggregate bs log.
 
 (* ---------- correspondence interface ---------- *)
-Definition input := list (list (Z * Z * Z)).          (* batches of (msg, sev, time) *)
-Definition output := list (Z * Z * Z * Z).            (* oldest first: msg, sev, time, occ *)
+(* a run of the engine = a sequence of aggregate_with calls; between two runs EngineData.reset_run calls
+   AggregatedErrorLog.clear(), after which the log is empty *)
+Definition clear (log : list agg) : list agg := [].
+Definition segment := list (list (Z * Z * Z)).        (* batches of (msg, sev, time) *)
+Definition input := list segment.                     (* clear() between consecutive segments *)
+Definition seg_output := list (Z * Z * Z * Z).        (* oldest first: msg, sev, time, occ *)
+Definition output := list seg_output.                 (* the log at the end of every segment *)
 
 Definition mk_entry (t : Z * Z * Z) : entry :=
   let '(m, s, t) := t in {| e_msg := m; e_sev := s; e_time := t |}.
-Definition out_of (log : list agg) : output :=
+Definition out_of (log : list agg) : seg_output :=
   map (fun a => (a_msg a, a_sev a, a_time a, a_occ a)) (rev log).
 
-Definition run (i : input) : output :=
-  out_of (aggregate_batches [] (map (map mk_entry) i)).
+Fixpoint run_from (log : list agg) (i : input) : output :=
+  match i with
+  | [] => []
+  | seg :: i' =>
+      let log' := aggregate_batches log (map (map mk_entry) seg) in
+      out_of log' :: run_from (clear log') i'
+  end.
+Definition run (i : input) : output := run_from [] i.
 
 Definition q4_eqb (a b : Z * Z * Z * Z) : bool :=
   let '(a1, a2, a3, a4) := a in let '(b1, b2, b3, b4) := b in
   (a1 =? b1) && (a2 =? b2) && (a3 =? b3) && (a4 =? b4).
-Definition out_eqb : output -> output -> bool := list_eqb q4_eqb.
+Definition seg_eqb : seg_output -> seg_output -> bool := list_eqb q4_eqb.
+Definition out_eqb : output -> output -> bool := list_eqb seg_eqb.
 
 (* ---------- specification, as a function of the flattened stream ---------- *)
 (* group_runs: one output row per maximal run of equal (msg, sev); time = last
@@ -75,7 +87,8 @@ Fixpoint group_runs_aux (cur : agg) (es : list entry) : list agg :=
 Definition group_runs (es : list entry) : list agg :=   (* oldest first *)
   match es with [] => [] | e :: es' => group_runs_aux (from_entry e) es' end.
 
-(* monitor on the implementation's output: it must be group_runs of the input *)
+(* monitor on the implementation's output: every segment's log must be group_runs of that segment's
+   stream (nothing carried over a clear) *)
 Definition holds_b (i : input) (o : output) : bool :=
-  out_eqb o (map (fun a => (a_msg a, a_sev a, a_time a, a_occ a))
-               (group_runs (map mk_entry (concat i)))).
+  out_eqb o (map (fun seg => map (fun a => (a_msg a, a_sev a, a_time a, a_occ a))
+                                 (group_runs (map mk_entry (concat seg)))) i).
